@@ -229,7 +229,9 @@ def extra_race_runs(prop, tier, seed, report, scratch, specdir, racebin):
           {"setup": su, "procs": [op("J", 1, 2), op("J", 1, 2)], "sched": []}]),
         ("bounded_join", [[], []],
          [{"setup": su, "procs": [op("JB", 1, 2, n=2), other, op("R", 1, acc="Len")], "sched": []}
-          for other in (op("R", 1, acc="Len"), op("R", 1, acc="Values"), op("R", 1, acc="GetEntries"), op("R", 1, acc="ToSnapshot"))]),
+          for other in (op("R", 1, acc="Len"), op("R", 1, acc="Values"), op("R", 1, acc="GetEntries"), op("R", 1, acc="ToSnapshot"))]
+         # a reader calling Len 20000 times, so that one call falls between the last use of the old entry index and its replacement
+         + [{"setup": su, "procs": [op("JB", 1, 2, n=2), op("R", 1, acc="LenLoop")], "sched": []}]),
     ]
     env = dict(os.environ, GORACE="halt_on_error=0 exitcode=0")
     for name, denied, items in groups:
